@@ -165,7 +165,7 @@ impl Prop for C15 {
         .unwrap()
     }
     fn rule(&self) -> String {
-        "Grammars as C10, 1/4 of them from the LR(1)-not-LALR(1) stratum alone (all kinds; Eco with 1-3 %implicit_tokens and %avoid_insert sets whose maps are randomly seeded). Oracle: (a) the grammar + state graph + table are built 5 times in-process (fresh hash seeds per HashMap) and every build must give the same digest of all queries (state items with lookaheads per state number, edges, actions, gotos, conflicts as a sorted set); (b) for 1/25 of the cases 3 fresh processes must report the same digest; (c) for 1/40 of the non-Eco cases (and for 1/60 of all cases the lexer alone with a user-supplied rule_ids_map of 3-10 identifier-like names onto ids 0..2, so names share ids; for another 1/60 a lexer from the lexer generators of C09/C11 - start states, targets, flags, escapes - with its named rules mapped onto ids 0..2; half of these builds with non-default visibility / edition / recoverer / serialisation format) the compile-time builders are run in 3 separate processes on the same paths (output wiped in between) and the generated parser and lexer modules must be byte-identical after masking the build-time comment. (Thread part: see C13's batch.) Evaluation = one grammar. Non-trivial: >=2 implicit tokens, or >=8 states, or conflicts; distinct by hash(text).".into()
+        "Grammars as C10, 1/4 of them from the LR(1)-not-LALR(1) stratum alone (all kinds; Eco with 1-3 %implicit_tokens and %avoid_insert sets whose maps are randomly seeded). Oracle: (a) the grammar + state graph + table are built 5 times in-process (fresh hash seeds per HashMap) and every build must give the same digest of all queries (state items with lookaheads per state number, edges, actions, gotos, conflicts as a sorted set); (b) for 1/25 of the cases 3 fresh processes must report the same digest; (c) for 1/40 of the non-Eco cases (and for 1/60 of all cases the lexer alone with a user-supplied rule_ids_map of 3-10 identifier-like names onto ids 0..2, so names share ids; for another 1/60 a lexer from the lexer generators of C09/C11 - start states, targets, flags, escapes - with its named rules mapped onto ids 0..2; half of these builds with non-default visibility / edition / recoverer / serialisation format) the compile-time builders are run in 3 separate processes on the same paths (output wiped in between) and the generated parser and lexer modules - and, for the builds with user-supplied ids, the token map module that CTTokenMapBuilder generates from the same ids - must be byte-identical after masking the build-time comment. (Thread part: see C13's batch.) Evaluation = one grammar. Non-trivial: >=2 implicit tokens, or >=8 states, or conflicts; distinct by hash(text).".into()
     }
     fn assumptions(&self) -> Vec<String> {
         vec![
@@ -174,7 +174,7 @@ impl Prop for C15 {
         ]
     }
     fn required_classes(&self, _tier: Tier) -> Vec<&'static str> {
-        vec!["implicit-tokens>=2", "cross-process", "generated-code", "generated-code:lexer-with-user-ids", "generated-code:non-default-settings", "kind:Eco", "with-conflicts"]
+        vec!["implicit-tokens>=2", "cross-process", "generated-code", "generated-code:lexer-with-user-ids", "generated-code:non-default-settings", "generated-code:token-map-module", "kind:Eco", "with-conflicts"]
     }
     fn evaluate(&self, case: &Value) -> Outcome {
         let case: Case = serde_json::from_value(case.clone()).unwrap();
@@ -252,15 +252,20 @@ impl Prop for C15 {
                 warnings_are_errors: Some(false),
                 error_on_conflicts: Some(false),
                 lexer_only_rule_ids: case.custom_ids.clone(),
+                token_map_mod: case.custom_ids.as_ref().map(|_| "tokmap".to_string()),
+                token_map_dir: case.custom_ids.as_ref().map(|_| dir.to_string_lossy().to_string()),
                 ..CtSpec::default()
             };
+            let tm_path = dir.join("tokmap.rs");
             if case.custom_ids.is_some() {
                 o.class("generated-code:lexer-with-user-ids");
             }
             let mut prev: Option<(String, Option<String>, Option<String>)> = None;
+            let mut prev_tm: Option<(Option<String>, Option<String>)> = None;
             for k in 0..3 {
                 let _ = std::fs::remove_file(&spec.parser_out);
                 let _ = std::fs::remove_file(&spec.lexer_out);
+                let _ = std::fs::remove_file(&tm_path);
                 let r = match run_ctstep(&spec) {
                     Ok(r) => r,
                     Err(e) => {
@@ -299,6 +304,25 @@ impl Prop for C15 {
                     o.class("generated-code:parser-built");
                 }
                 prev = Some(cur);
+                if case.custom_ids.is_some() {
+                    // the token map module CTTokenMapBuilder generates from the same ids
+                    let cur_tm = (r.token_map.clone(), std::fs::read_to_string(&tm_path).ok().map(|s| mask_timestamps(&s)));
+                    if cur_tm.0.as_deref() == Some("ok") {
+                        o.class("generated-code:token-map-module");
+                    }
+                    if let Some(p) = &prev_tm {
+                        if *p != cur_tm {
+                            o.fail(
+                                "wrong",
+                                "C15/generated-code-differs/token-map",
+                                format!("the token map module (or the outcome of CTTokenMapBuilder::build) of build process {k} differs from the previous process; ids {:?}", case.custom_ids),
+                            );
+                            let _ = std::fs::remove_dir_all(&dir);
+                            return o;
+                        }
+                    }
+                    prev_tm = Some(cur_tm);
+                }
             }
             let _ = std::fs::remove_dir_all(&dir);
         }
